@@ -252,6 +252,82 @@ RETYPE = {   # right column names and primary key, other declared types / affini
 }
 
 
+TABLE_DEFS = {   # the layout parser.py creates (only used to write the ONE changed column next to the others)
+    "models": ([("txt_hash", "TEXT"), ("pymoca_version", "TEXT"), ("data", "BLOB"), ("last_hit", "TIMESTAMP INTEGER")],
+               "txt_hash, pymoca_version"),
+    "metadata": ([("key", "TEXT"), ("value", "TEXT")], "key"),
+}
+
+
+def retype_one(table, col, decl):
+    """the table with the right column names and primary key, rows kept, ONE column declared differently
+    (other type / affinity, NOT NULL, DEFAULT)"""
+    cols, pk = TABLE_DEFS[table]
+    names = ", ".join(n for n, _ in cols)
+    body = ", ".join("%s %s" % (n, decl if n == col else d) for n, d in cols)
+    new = table + "_new"
+    return ["DROP TABLE IF EXISTS %s" % new,
+            "CREATE TABLE %s (%s, PRIMARY KEY (%s))" % (new, body, pk),
+            "INSERT INTO %s SELECT %s FROM %s" % (new, names, table),
+            "DROP TABLE %s" % table,
+            "ALTER TABLE %s RENAME TO %s" % (new, table)]
+
+
+_reference_layout = {}
+
+
+def reference_layout():
+    """PRAGMA table_info of both tables of a database this very implementation creates from nothing"""
+    if not _reference_layout:
+        d = tempfile.mkdtemp(prefix="c01ref_", dir=os.getcwd())
+        keep = pymoca.__version__
+        pymoca.__version__ = "0.0.0+verif"
+        try:
+            pymoca.parser.parse("model R\nend R;\n", model_cache_folder=Path(d))
+            c = _real_connect(os.path.join(d, pymoca.parser.DEFAULT_MODEL_CACHE_DB))
+            for t in ("models", "metadata"):
+                _reference_layout[t] = [list(r) for r in c.execute("PRAGMA table_info('%s')" % t).fetchall()]
+            c.close()
+        finally:
+            pymoca.__version__ = keep
+            shutil.rmtree(d, ignore_errors=True)
+    return _reference_layout
+
+
+def _safe_reference():
+    try:
+        return reference_layout()
+    except Exception as e:  # noqa - then the layout clause of the oracle has no reference and says so
+        return {"error": "%s: %s" % (type(e).__name__, str(e)[:100])}
+
+
+def layout_facts(path, texts):
+    """what a reader sees of the table layout and of the stored last_hit values (None when not readable)"""
+    if not os.path.isfile(path) or "c" in _lock:
+        return None
+    try:
+        c = sqlite3.connect("file:%s?mode=ro" % path, uri=True)
+        try:
+            kinds = dict(c.execute("SELECT name, type FROM sqlite_master WHERE name IN ('models', 'metadata')").fetchall())
+            out = {"view": kinds.get("models") == "view"}
+            for t in ("models", "metadata"):
+                out[t] = ([list(r) for r in c.execute("PRAGMA table_info('%s')" % t).fetchall()]
+                          if kinds.get(t) == "table" else None)
+            rows = []
+            if out["models"] is not None and {"txt_hash", "pymoca_version", "last_hit"} <= {r[1] for r in out["models"]}:
+                by_key = {}
+                for i, t in enumerate(texts):
+                    by_key.setdefault(key_of(t), i)
+                for h, v, ty, lh in c.execute("SELECT txt_hash, pymoca_version, typeof(last_hit), last_hit FROM models"):
+                    rows.append([by_key.get(h, -1), v, ty, lh - BASE_NS // 1000 if isinstance(lh, int) else None])
+            out["rows"] = rows
+            return out
+        finally:
+            c.close()
+    except sqlite3.DatabaseError:
+        return None
+
+
 def retype_stmts(cols):
     return ["DROP TABLE IF EXISTS models_new",
             "CREATE TABLE models_new (%s, PRIMARY KEY (txt_hash, pymoca_version))" % cols,
@@ -416,6 +492,7 @@ def _handler(case):
                         f = fr[ti]
                         o["out"] = "tree" if (f[0] == "tree" and dump(tree) == f[1]) else "other"
                 o["fresh_calls"] = _counter["n"] - n0
+                o["layout"] = layout_facts(path, texts)
             elif k == "reload":
                 importlib.reload(pymoca.parser)
                 _wrap_parse()
@@ -432,7 +509,8 @@ def _handler(case):
                 o["applied"] = db_exec(path, [("UPDATE models SET data = ? WHERE txt_hash = ?", (val, key_of(texts[ti])))])
             elif k == "layout":
                 kind = op[1]
-                stmts = retype_stmts(RETYPE[kind]) if kind in RETYPE else {
+                stmts = retype_one(*kind.split(":")[1:]) if kind.startswith("retype:") else \
+                    retype_stmts(RETYPE[kind]) if kind in RETYPE else {
                     "models_view": ["DROP TABLE IF EXISTS models", VIEW],
                     "models_dropped": ["DROP TABLE IF EXISTS models"],
                     "models_wrong": ["DROP TABLE IF EXISTS models", DUMMY.format("models")],
@@ -479,7 +557,8 @@ def _handler(case):
         release_lock()
         shutil.rmtree(folder, ignore_errors=True)
     sig = [hashlib.sha1(f[1].encode("utf-8", "surrogatepass")).hexdigest() if f[0] == "tree" else None for f in fr]
-    return {"obs": obs, "fresh": [f[0] for f in fr], "fresh_sig": sig, "rows_seen": rows_seen}
+    return {"obs": obs, "fresh": [f[0] for f in fr], "fresh_sig": sig, "rows_seen": rows_seen,
+            "reference_layout": _safe_reference()}
 
 
 if __name__ == "__main__":
